@@ -4,9 +4,13 @@ package common
 
 import (
 	"context"
+	"database/sql"
+	"database/sql/driver"
 	"errors"
+	"io"
 
 	"github.com/uptrace/bun"
+	"github.com/uptrace/bun/dialect/pgdialect"
 
 	"github.com/formancehq/go-libs/v5/pkg/storage/bun/paginate"
 
@@ -14,45 +18,80 @@ import (
 )
 
 // Thin wrappers for the Api-area harness (wlapi): run the REAL
-// `PaginatedResourceRepository.Paginate` / `ResourceRepository.Count` validation
-// (pagination column checks, `validateFilters`) for a resource schema, stopping
-// with a sentinel where the real handler would start building SQL.
+// `PaginatedResourceRepository.Paginate` / `ResourceRepository.Count` (pagination
+// column checks, `validateFilters`, filter resolution, column / offset paginator,
+// `BuildCursor`) for a resource schema over an EMPTY table: the dataset is a
+// plain `select … from verif_empty` on a database/sql driver that answers every
+// query with zero rows.  Filter resolution is delegated to `resolve`, which the
+// caller binds to the real handler's `ResolveFilter`.
 
-var ErrVerifReachedDataset = errors.New("verif: validation passed, dataset build reached")
+type verifConnector struct{}
 
-type verifSchemaHandler[O any] struct{ schema queries.EntitySchema }
+func (verifConnector) Connect(context.Context) (driver.Conn, error) { return verifConn{}, nil }
+func (verifConnector) Driver() driver.Driver                        { return verifDriver{} }
 
-func (h verifSchemaHandler[O]) Schema() queries.EntitySchema { return h.schema }
-func (h verifSchemaHandler[O]) BuildDataset(RepositoryHandlerBuildContext[O]) (*bun.SelectQuery, error) {
-	return nil, ErrVerifReachedDataset
-}
-func (h verifSchemaHandler[O]) ResolveFilter(ResourceQuery[O], string, string, any) (string, []any, error) {
-	panic("verif: unreachable")
-}
-func (h verifSchemaHandler[O]) Project(ResourceQuery[O], *bun.SelectQuery) (*bun.SelectQuery, error) {
-	panic("verif: unreachable")
-}
-func (h verifSchemaHandler[O]) Expand(ResourceQuery[O], string) (*bun.SelectQuery, *JoinCondition, error) {
-	panic("verif: unreachable")
+type verifDriver struct{}
+
+func (verifDriver) Open(string) (driver.Conn, error) { return verifConn{}, nil }
+
+type verifConn struct{}
+
+func (verifConn) Prepare(string) (driver.Stmt, error) { return verifStmt{}, nil }
+func (verifConn) Close() error                        { return nil }
+func (verifConn) Begin() (driver.Tx, error)           { return nil, errors.New("verif: no transactions") }
+
+type verifStmt struct{}
+
+func (verifStmt) Close() error                               { return nil }
+func (verifStmt) NumInput() int                              { return -1 }
+func (verifStmt) Exec([]driver.Value) (driver.Result, error) { return driver.ResultNoRows, nil }
+func (verifStmt) Query([]driver.Value) (driver.Rows, error)  { return verifRows{}, nil }
+
+type verifRows struct{}
+
+func (verifRows) Columns() []string         { return []string{} }
+func (verifRows) Close() error              { return nil }
+func (verifRows) Next([]driver.Value) error { return io.EOF }
+
+var verifDB = bun.NewDB(sql.OpenDB(verifConnector{}), pgdialect.New(), bun.WithDiscardUnknownColumns())
+
+// VerifResolve is the real handler's ResolveFilter reduced to its error.
+type VerifResolve func(operator, property string, value any) error
+
+type verifHandler[O any] struct {
+	schema  queries.EntitySchema
+	resolve VerifResolve
 }
 
-// VerifPaginateValidate returns nil when the real Paginate would go on to query
-// the database, otherwise the error the real store returns.
-func VerifPaginateValidate[O any](schema queries.EntitySchema, defaultColumn string, defaultOrder paginate.Order, q PaginatedQuery[O]) error {
-	repo := NewPaginatedResourceRepository[struct{}, O](verifSchemaHandler[O]{schema}, defaultColumn, defaultOrder)
-	_, err := repo.Paginate(context.Background(), q)
-	if errors.Is(err, ErrVerifReachedDataset) {
-		return nil
+func (h verifHandler[O]) Schema() queries.EntitySchema { return h.schema }
+func (h verifHandler[O]) BuildDataset(RepositoryHandlerBuildContext[O]) (*bun.SelectQuery, error) {
+	return verifDB.NewSelect().TableExpr("verif_empty"), nil
+}
+func (h verifHandler[O]) ResolveFilter(_ ResourceQuery[O], operator, property string, value any) (string, []any, error) {
+	if h.resolve != nil {
+		if err := h.resolve(operator, property, value); err != nil {
+			return "", nil, err
+		}
 	}
-	return err
+	return "true", nil, nil
+}
+func (h verifHandler[O]) Project(_ ResourceQuery[O], q *bun.SelectQuery) (*bun.SelectQuery, error) {
+	return q.ColumnExpr("*"), nil
+}
+func (h verifHandler[O]) Expand(ResourceQuery[O], string) (*bun.SelectQuery, *JoinCondition, error) {
+	return nil, nil, nil
 }
 
-// VerifResourceValidate: same for Count / GetOne.
-func VerifResourceValidate[O any](schema queries.EntitySchema, q ResourceQuery[O]) error {
-	repo := NewResourceRepository[struct{}, O](verifSchemaHandler[O]{schema})
-	_, err := repo.Count(context.Background(), q)
-	if errors.Is(err, ErrVerifReachedDataset) {
-		return nil
-	}
+// VerifPaginateEmpty: the real Paginate over an empty table.
+func VerifPaginateEmpty[R, O any](schema queries.EntitySchema, resolve VerifResolve, defaultColumn string, defaultOrder paginate.Order, q PaginatedQuery[O]) (*paginate.Cursor[R], error) {
+	repo := NewPaginatedResourceRepository[R, O](verifHandler[O]{schema, resolve}, defaultColumn, defaultOrder)
+	return repo.Paginate(context.Background(), q)
+}
+
+// VerifCountEmpty: what Count / GetOne do before touching the database
+// (`buildFilteredDataset`: validateFilters + filter resolution).
+func VerifCountEmpty[R, O any](schema queries.EntitySchema, resolve VerifResolve, q ResourceQuery[O]) error {
+	repo := NewResourceRepository[R, O](verifHandler[O]{schema, resolve})
+	_, err := repo.buildFilteredDataset(q)
 	return err
 }
